@@ -208,3 +208,39 @@ def run_render(ctx):
         else:
             res.bad("render:Debug=debug", "the REPL's {:?} rendering no longer goes through Variable::debug", fb.where())
     return res
+
+
+def run_looptype(ctx):
+    """C01 / C12: a loop evaluates to () and is typed (); break / continue are typed `!`."""
+    res = RuleResult("R-LOOPTYPE", "Instruction::Loop is given the constant static type () (the value Loop::exec yields when the loop "
+                                   "is left), Break / Continue the type `!`; none of them is typed by a computed analysis")
+    lib = ctx.facts.lib
+    rt = "<instruction::Instruction as variable::r#type::ReturnType>::return_type"
+    b = lib.body(rt)
+    if res.anchor(b is not None, rt):
+        sws = enum_switches(b, "instruction::Instruction")
+        if res.anchor(bool(sws), "match on Instruction in Instruction::return_type"):
+            sw = sws[0]
+            for var, want in (("Loop", "Void"), ("Break", "Never"), ("Continue", "Never")):
+                key = "looptype:%s" % var
+                t = sw["arms"].get(var)
+                if t is None:
+                    res.bad(key, "Instruction::%s has no arm of its own in Instruction::return_type (typed by some computation)" % var, b.where())
+                    continue
+                reg = set(arm_region(b, t))
+                built = [s["rv"]["variant"] for i, s in b.assigns() if i in reg and s["rv"]["k"] == "agg" and s["rv"].get("adt") == "variable::r#type::Type"]
+                calls = [c.callee for c in calls_in(b, arm_region(b, t)) if c.callee and not c.callee.startswith(("std::", "core::", "<std::", "<core::"))]
+                if built == [want] and not calls:
+                    res.ok(key, b.where(), "Instruction::%s : %s" % (var, "()" if want == "Void" else "!"))
+                else:
+                    res.bad(key, "Instruction::%s must have the constant static type %s; its arm builds %s and calls %s: a loop that is left "
+                                 "(break, false condition, exhausted iterator) yields () whatever its body's type is"
+                            % (var, "()" if want == "Void" else "!", built, calls[:2]), b.where())
+    lb = lib.body("<instruction::r#loop::Loop as instruction::Exec>::exec")
+    if res.anchor(lb is not None, "Loop::exec"):
+        vs = [s["rv"]["variant"] for _, s in aggregates(lb, VAR)]
+        if vs == ["Void"]:
+            res.ok("looptype:exec-yields-void", lb.where(), "Loop::exec yields () when the loop is left")
+        else:
+            res.bad("looptype:exec-yields-void", "Loop::exec builds %s as its value" % vs, lb.where())
+    return res
